@@ -360,6 +360,68 @@ def interleaved(tp: int, a1: int, a2: int, a3: int, b1: int, b2: int, ka: int) -
     return ""
 
 
+def deep_nesting(n: int, tp: int, exc: bool) -> str:
+    """
+    n different functions f0..f(n-1) nested in one another, each with its own method span (or method capture): every one
+    of the n openings is completed exactly once when ITS function ends, however deep the nesting.
+    PRE: 1 <= n <= 24 and 0 <= tp <= 1
+    POST: _ == ""
+    """
+    world.begin_path()
+    from deep.api.tracepoint.trigger import LocationAction, FunctionLocation, Trigger, Location
+    n, tp, exc = world.realize(n), world.realize(tp), world.realize(exc)
+    P = plugins()
+    log = []
+    w = World(plugin_list=[P["RecSpanProcessor"](log)])
+    import deep.thread_local as tl
+    tl.threading = FakeThreadingMod()
+    trigs = []
+    lim = {"fire_count": -1, "fire_period": 0}
+    for i in range(n):
+        if tp == 0:
+            act = LocationAction("span-%d" % i, None, dict(lim, span="method"), LocationAction.ActionType.Span)
+        else:
+            act = LocationAction("cap-%d" % i, None, dict(lim, stage="method_capture", watches=[], frame_type="no_frame"),
+                                 LocationAction.ActionType.Snapshot)
+        trigs.append(Trigger(FunctionLocation("f.py", "f%d" % i, Location.Position.START), [act]))
+    w.install(trigs)
+    frames = []
+    prev = None
+    t = 0
+    for i in range(n):
+        fr = FakeFrame("/app/f.py", "f%d" % i, 10 + i, {"i": i}, {}, prev)
+        frames.append(fr)
+        prev = fr
+        t += 1
+        w.clock.t = t
+        w.event(fr, "call", None)
+    for i in reversed(range(n)):
+        t += 1
+        w.clock.t = t
+        if exc and i == n - 1:
+            w.event(frames[i], "exception", (ValueError, ValueError("x"), None))
+            t += 1
+            w.clock.t = t
+        w.event(frames[i], "return", None if (exc and i == n - 1) else "v%d" % i)
+    world.reached()
+    if tp == 0:
+        opens = [e for e in log if e[0] == "open"]
+        closes = [e for e in log if e[0] == "close"]
+        if len(opens) != n:
+            return "C15:deep:span-not-opened-per-function"
+        for i in range(n):
+            c = [e for e in closes if e[3] == "span-%d" % i]
+            if len(c) != 1:
+                return "C15:deep:span-%s" % ("never-closed" if not c else "closed-twice")
+    else:
+        ids = sorted(s.tracepoint.id for s in w.push.snapshots)
+        if ids != sorted("cap-%d" % i for i in range(n)):
+            return "C15:deep:capture-" + ("lost" if len(ids) < n else "duplicated")
+    if not _store_empty():
+        return "C15:work-left-pending-when-the-thread-ended"
+    return ""
+
+
 def _mut_capture_wrong_value():
     from deep.processor.context.snapshot_action import DeferredSnapshotActionCallback
     orig = DeferredSnapshotActionCallback.process
@@ -406,6 +468,8 @@ CONDITIONS = [
     dict(fn="interleaved", cubes={"quick": ["tp == %d and a1 == 2 and a3 == 4 and ka == %d" % (t, k) for t in (0, 1, 2, 3) for k in (2, 3)],
                                   "thorough": ["tp == %d and a1 == %d and ka == %d" % (t, a, k) for t in (0, 1, 2, 3) for a in range(7) for k in (1, 2, 3, 4)]},
          twins=["reach"], bounds="two live threads: A (3 choices; quick: call f, any, return) interrupted after ka events by B's whole stream (2 choices); single-tracepoint subsets"),
+    dict(fn="deep_nesting", cubes=["tp == %d and n %s" % (t, r) for t in (0, 1) for r in ("<= 8", "> 8 and n <= 16", "> 16")], twins=["reach"],
+         bounds="1..24 nested functions, each with its own method span / method capture; innermost returns or raises"),
     dict(fn="two_threads", cubes={"quick": ["tp == %d and c1 == 2 and c2 == %d and c3 == 4 and d3 == 4" % (t, c) for t in (0, 1, 2, 4) for c in (0, 2)],
                                   "thorough": ["tp == %d and c1 == %d and c2 == %d and c3 == 4" % (t, c, d) for t in range(8) for c in (0, 2) for d in range(7)]},
          twins=["reach", "mutant:never_close@tp == 0 and c1 == 2 and c2 == 0 and c3 == 4 and d3 == 4"],
